@@ -210,7 +210,10 @@ class Check:
 
   # ---- finish
   def write_evidence(self):
-    os.makedirs(EVID, exist_ok=True)
+    evid = EVID
+    if os.environ.get('VERIF_REPO', '/repo').rstrip('/') != '/repo':
+      evid = os.path.join(WORK, 'evidence_other_tree')   # mutant / scratch-tree runs never overwrite committed evidence
+    os.makedirs(evid, exist_ok=True)
     cov = dict(evaluations=int(self.evaluations), distinct_nontrivial=len(self.nontrivial), rule=self.rule,
                samples=self.samples[:self.max_samples], labels=dict(self.labels.most_common(60)),
                discards=dict(self.discards))
@@ -222,7 +225,7 @@ class Check:
               violations=len(self.violations))
     if self.known_hits:
       ev['known_findings'] = [k[1] for k in self.known_hits]
-    path = os.path.join(EVID, '%s.json' % self.pid)
+    path = os.path.join(evid, '%s.json' % self.pid)
     tmp = path + '.tmp%d' % os.getpid()
     with open(tmp, 'w') as f:
       json.dump(ev, f, indent=1)
